@@ -28,7 +28,8 @@ type thread struct {
 	wake    chan struct{}
 	pending *op // operation the thread is parked on (nil while running)
 	done    bool
-	blocked int // clock tick at which it parked (for FIFO partner selection)
+	endAt   time.Duration // virtual time at which the thread finished
+	blocked int           // clock tick at which it parked (for FIFO partner selection)
 }
 
 // op is a parked operation: enabled says whether it can complete now; run
@@ -121,6 +122,7 @@ func (s *Sched) spawn(name string, f func()) *thread {
 				}
 			}
 			t.done = true
+			t.endAt = s.clock
 			t.pending = nil
 			s.back <- struct{}{}
 		}()
@@ -321,6 +323,23 @@ func (s *Sched) Steps() int { return s.steps }
 
 // Threads reports how many logical threads were created.
 func (s *Sched) Threads() int { return len(s.threads) }
+
+// ThreadEnd describes when a logical thread finished (Done false: it never did).
+type ThreadEnd struct {
+	ID   int
+	Name string
+	Done bool
+	At   time.Duration
+}
+
+// ThreadEnds lists every logical thread with the virtual time at which it finished.
+func (s *Sched) ThreadEnds() []ThreadEnd {
+	var out []ThreadEnd
+	for _, t := range s.threads {
+		out = append(out, ThreadEnd{t.id, t.name, t.done, t.endAt})
+	}
+	return out
+}
 
 // AddTimer registers a callback at d from now in virtual time (harness use: e.g. a
 // transport deadline). The callback runs in scheduler context.
